@@ -718,4 +718,128 @@ theorem stepNX_token {cfg : Cfg} {M : List Nat} {adr : Nat → Nat} {n : Net} {v
   unfold NView.turn NView.sendX
   rfl
 
+theorem tokenBytes_adr_inj (a b c d : Nat) (ha : a < 256) (hc : c < 256) (h : tokenBytes a b = tokenBytes c d) : a = c := by
+  unfold tokenBytes sendToken at h
+  simp only [List.cons.injEq, and_true, true_and] at h
+  have e1 := congrArg UInt8.toNat h.1
+  rw [u8n a ha, u8n c hc] at e1
+  exact e1
+
+/-- Phase `hold`, the first poll after the synchronisation pause: a GAP request to an address that is not a
+member, or the token to the successor. -/
+theorem stepNX_hold_go {cfg : Cfg} {M : List Nat} {adr : Nat → Nat} {n : Net} {v : NView} (h : NInv cfg M adr n v)
+    (hok : cfg.Ok) (hP100 : cfg.P ≤ 100000) (p1 : Int) (hph : v.ph = .hold p1) (now : Int) (e : EvOkN cfg n v.tl v.x now)
+    (hgo : p1 + (cfg.b33 : Nat) < now) : NStepOut cfg M adr n v v.x now := by
+  have hP := h.ph
+  unfold PhaseOkN at hP
+  rw [hph] at hP
+  obtain ⟨⟨d, f, hst⟩, hlx, ⟨a0, htok⟩, hend, hp1, hsx, hH, hLo, hp1P⟩ := hP
+  simp only at hp1 hsx
+  have hown := e.own
+  have hxs : v.x < n.bus.seen.length := by rw [h.log.seen]; exact h.xlt
+  have hc5 := cfg.ce5 hok.rate
+  have hphy := h.phyX p1 now hlx (by omega)
+  have hax := h.ring.lt v.x h.xlt
+  obtain ⟨c, hp, hinvc, o1, o2, o3, o4, o5, o6, o7⟩ := holder_poll_exact v.sx.s now p1 d f h.okx.inv h.okx.son hst hlx
+    (by rw [h.okx.b33]; exact hgo)
+  have hends : ∀ o ∈ n.bus.txs, cEnd cfg o ≤ now := by
+    intro o ho
+    rcases h.doneX o ho with hs | hs
+    · have := h.ownX p1 hlx o ho hs; omega
+    · omega
+  have hnotok : ∀ j, j < n.stations.length → j ≠ v.x → ∀ a, v.tr.bytes ≠ tokenBytes (adr j) a := by
+    intro j hj hjx a hb
+    rw [htok] at hb
+    have haj := h.ring.lt j hj
+    exact hjx (h.ring.inj j v.x hj h.xlt (tokenBytes_adr_inj _ _ _ _ (by omega) (by omega) hb).symm)
+  have hturn : v.turn M adr = adr v.x := by unfold NView.turn; rw [hph]
+  have hsync : cEnd cfg v.tr + (cfg.b33 : Nat) < now := by omega
+  rcases o7 with ⟨g, cur, hcur, hna, htx, hst', hring, hlast⟩ | ⟨htx, hring, hst', hlast⟩
+  · -- GAP request
+    have hns : v.sx.s.ring.ns = cycSucc (adr v.x) M := h.okx.view.ns.1
+    rw [h.okx.addr, hns] at hcur
+    rw [h.okx.addr] at hna htx
+    have hbtw := nextGapPoll_between _ _ _ _ _ hcur (h.ring.two _ (h.ring.mem v.x h.xlt))
+    have hgM : g ∉ M := fun hm =>
+      no_member_between (adr v.x) _ M (cycSucc_spec _ M) (h.ring.mem v.x h.xlt) g hm hbtw
+    have hg126 : g < 126 := by
+      have h1 := (hinvc.await1 g hst').1
+      have h2 := hinvc.gap g h1
+      have h3 := hinvc.hsa
+      omega
+    have hlast' : c.s.lastBusActivity = some (now + (cfg.b66 : Nat)) := by
+      rw [hlast, bitsN_11_6, h.okx.bits]; rfl
+    obtain ⟨n', pre', hn', hinv'⟩ := ninv_send_x h hok hP100 now e c _ (.gap g)
+      (now + (cfg.b66 : Nat) + (cfg.slot : Nat) + (cfg.P : Nat)) (now + (cfg.b66 : Nat) + (cfg.slot : Nat))
+      (by rw [hphy]; exact hp) htx o4 (by rw [hring]; exact h.okx.view) (o5.trans h.okx.son) (o6.trans h.pbx) o1
+      (by rw [statusRequestBytes_length]; omega)
+      ⟨v.x, h.xlt, rfl, .inr ⟨g, hg126, hgM, rfl⟩⟩ (by omega) (by omega) hends hnotok
+      (by
+        intro l hl
+        rw [hlast'] at hl
+        cases hl
+        refine ⟨by omega, ?_⟩
+        rw [statusRequestBytes_length]
+        show now + ((cfg.ce 5 : Nat) : Int) ≤ _
+        omega)
+      (by
+        intro pre'
+        unfold PhaseOkN NView.sendX upSt
+        simp only
+        rw [seen_set_self _ _ _ hxs]
+        exact ⟨trivial, trivial, hst', hlast', Int.le_refl _, by omega, trivial, trivial⟩)
+    refine ⟨n', _, [], c, hn', hinv', rfl, .inr ⟨_, htx, hturn.symm, hsync, rfl, .inl ⟨g, rfl, hgM, ?_⟩⟩⟩
+    unfold NView.turn NView.sendX
+    rfl
+  · exact stepNX_token h hok hP100 now e c (by rw [hphy]; exact hp) htx hring hst' hlast o4 (o5.trans h.okx.son)
+      (o6.trans h.pbx) o1 (by omega) hends hnotok hturn hsync
+
+/-- Phase `gap`, the first poll after the slot time has expired: the token goes to the successor. -/
+theorem stepNX_gap_timeout {cfg : Cfg} {M : List Nat} {adr : Nat → Nat} {n : Net} {v : NView} (h : NInv cfg M adr n v)
+    (hok : cfg.Ok) (hP100 : cfg.P ≤ 100000) (g : Nat) (hph : v.ph = .gap g) (now : Int) (e : EvOkN cfg n v.tl v.x now)
+    (hex : v.tr.start + (cfg.b66 : Nat) + (cfg.slot : Nat) < now) : NStepOut cfg M adr n v v.x now := by
+  have hP := h.ph
+  unfold PhaseOkN at hP
+  rw [hph] at hP
+  obtain ⟨hs1, hb, hst, hlx, hq, hsx, hH, hLo⟩ := hP
+  simp only at hq hsx
+  have hown := e.own
+  have hmar := hok.margin
+  have hc5 := cfg.ce5 hok.rate
+  have hlen : v.tr.bytes.length = 6 := by rw [hb]; exact statusRequestBytes_length _ _
+  have hce : cEnd cfg v.tr = v.tr.start + ((cfg.ce 5 : Nat) : Int) := by unfold cEnd; rw [hlen]
+  have hphy := h.phyX _ now hlx (by omega)
+  obtain ⟨c, hp, hinvc, o1, o2, o4, o5, o6, htx, hring, hst', hlast⟩ := await_poll_timeout v.sx.s now _ g
+    h.okx.inv h.okx.son hst hlx (by rw [h.okx.slot]; exact hex) (by rw [h.okx.b33, h.okx.slot]; omega)
+  have hends : ∀ o ∈ n.bus.txs, cEnd cfg o ≤ now := by
+    intro o ho
+    rcases h.doneX o ho with hs | hs
+    · have := h.ownX _ hlx o ho hs; omega
+    · omega
+  have hnotok : ∀ j, j < n.stations.length → j ≠ v.x → ∀ a, v.tr.bytes ≠ tokenBytes (adr j) a := by
+    intro j hj hjx a hbt
+    rw [hb] at hbt
+    exact statusRequest_ne_token _ _ _ _ hbt
+  have hturn : v.turn M adr = adr v.x := by unfold NView.turn; rw [hph]
+  exact stepNX_token h hok hP100 now e c (by rw [hphy]; exact hp) htx hring hst' hlast o4 (o5.trans h.okx.son)
+    (o6.trans h.pbx) o1 (by omega) hends hnotok hturn (by rw [hce]; omega)
+
+/-- **One event** of the stable N-station ring. -/
+theorem ringN_step {cfg : Cfg} {M : List Nat} {adr : Nat → Nat} {n : Net} {v : NView} (h : NInv cfg M adr n v)
+    (hok : cfg.Ok) (hP100 : cfg.P ≤ 100000) (i : Nat) (now : Int) (e : EvOkN cfg n v.tl i now) :
+    NStepOut cfg M adr n v i now := by
+  by_cases hix : i = v.x
+  · subst hix
+    cases hph : v.ph with
+    | hold p1 =>
+      by_cases hw : now ≤ p1 + (cfg.b33 : Nat)
+      · exact stepNX_hold_wait h hok p1 hph now e hw
+      · exact stepNX_hold_go h hok hP100 p1 hph now e (by omega)
+    | gap g =>
+      by_cases hw : now ≤ v.tr.start + (cfg.b66 : Nat) + (cfg.slot : Nat)
+      · exact stepNX_gap_wait h hok g hph now e hw
+      · exact stepNX_gap_timeout h hok hP100 g hph now e (by omega)
+    | pass => exact stepNX_pass h hok hph now e
+  · exact stepL h hok i hix now e
+
 end PV
